@@ -13,8 +13,8 @@ Report(inst, S) == \A d \in S : PrintT(<<"DEV", "C12", inst, l, d[1], d[2]>>)
 IfDev(c, code, detail) == IF c THEN {} ELSE { <<code, detail>> }
 \* evaluated in the state whose `text' is the event's text
 Devs(e) ==
-  IfDev(e.dup \/ Len(e.spans) = 1, "an error that is not a duplication carries more than one span", e.spans)
-  \cup IfDev(\A i \in 1 .. Len(e.spans) - 1 : e.spans[i][1] <= e.spans[i + 1][1], "the spans of an error are not in text order", e.spans)
+  IfDev(e.dup \/ Len(e.spans) = 1, "INFO: an error that is not a duplication carries more than one span", e.spans)
+  \cup IfDev(\A i \in 1 .. Len(e.spans) - 1 : e.spans[i][1] <= e.spans[i + 1][1], "INFO: the spans of an error are not in text order", e.spans)
   \cup (LET rd == RenderSpanned(e.spans, e.msg) IN
         IfDev(e.rd = rd, "rendering of a parser error (lines, line numbers, indentation, underlines, message, occurrences)", <<e.spans, e.rd, rd>>))
 Init == l = 1 /\ ndev = 0 /\ NLInit
